@@ -179,11 +179,13 @@ structure MutResult where
   changed : Bool    -- the database differs afterwards
 deriving DecidableEq, Repr
 
-/-- `_create_batch_update`: first `SELECT … FROM batch_updates WHERE batch_id = %s AND token = %s` (NO user filter) — if found the
-existing update is returned; only then `SELECT … FROM batches WHERE batches.id = %s AND batches.user = %s` else 404. -/
+/-- `_create_batch_update` (as of commit 4c50f4344): first the idempotency lookup
+`SELECT … FROM batch_updates INNER JOIN batches … WHERE batch_updates.batch_id = %s AND batch_updates.token = %s AND batches.user = %s AND NOT deleted`
+— found: the existing update is returned; then `SELECT … FROM batches WHERE batches.id = %s AND batches.user = %s` else 404.
+A non-owner finds nothing in either. -/
 def createBatchUpdate (q : MutReq) : MutResult :=
-  if q.tokenKnown then { ok := true, changed := false }
-  else if q.isOwner then { ok := true, changed := true }
+  if q.isOwner then
+    (if q.tokenKnown then { ok := true, changed := false } else { ok := true, changed := true })
   else { ok := false, changed := false }
 
 def mutate (m : Mutator) (q : MutReq) : MutResult :=
@@ -196,8 +198,25 @@ def mutate (m : Mutator) (q : MutReq) : MutResult :=
       -- `_create_job_groups` / `_create_jobs` start with the owner-filtered SELECT (404 otherwise)
       if q.isOwner then { ok := true, changed := true } else { ok := false, changed := r.changed }
     else
-      -- nothing to insert: straight to `_commit_update`, which has no owner check
+      -- nothing to insert: straight to `_commit_update` (no owner check of its own; only the owner gets here)
       { ok := true, changed := true }
+  | _ => if q.isOwner then { ok := true, changed := true } else { ok := false, changed := false }
+
+/-- `_create_batch_update` BEFORE commit 4c50f4344: the token lookup `WHERE batch_id = %s AND token = %s` had no user filter -/
+def createBatchUpdateOld (q : MutReq) : MutResult :=
+  if q.tokenKnown then { ok := true, changed := false }
+  else if q.isOwner then { ok := true, changed := true }
+  else { ok := false, changed := false }
+
+def mutateOld (m : Mutator) (q : MutReq) : MutResult :=
+  match m with
+  | .createUpdate => createBatchUpdateOld q
+  | .updateFast =>
+    let r := createBatchUpdateOld q
+    if !r.ok then r
+    else if !q.emptyPayload then
+      if q.isOwner then { ok := true, changed := true } else { ok := false, changed := r.changed }
+    else { ok := true, changed := true }
   | _ => if q.isOwner then { ok := true, changed := true } else { ok := false, changed := false }
 
 end HailVerif.Access
